@@ -191,11 +191,15 @@ Qed.
 Lemma eqb_refl_and : forall k, String.eqb k k && Nat.eqb 0 0 = true.
 Proof. intros. rewrite String.eqb_refl. reflexivity. Qed.
 
-Ltac crunch2 := repeat (cbn -[mem rm node_names node_pod wl_node plock clock]; rewrite ?mem_head, ?String.eqb_refl;
+Lemma node_pod_set_held : forall w h n, node_pod (set_held w h) n = node_pod w n.
+Proof. reflexivity. Qed.
+
+Ltac crunch2 := repeat (cbn -[mem rm node_names node_pod wl_node plock clock]; rewrite ?mem_head, ?String.eqb_refl, ?node_pod_set_held;
   try match goal with
       | |- context [if mem ?a ?b then _ else _] => let E := fresh "E" in destruct (mem a b) eqn:E
       | |- context [match node_pod ?w ?n with _ => _ end] => let E := fresh "E" in destruct (node_pod w n) eqn:E
       | |- context [map fst (filter ?f ?l)] => let E := fresh "E" in destruct (map fst (filter f l)) eqn:E
+      | |- context [if negb (String.eqb ?a ?b) then _ else _] => let E := fresh "Q" in destruct (String.eqb a b) eqn:E
       end).
 
 (* ---------- RemovePod ---------- *)
@@ -211,18 +215,20 @@ Qed.
 
 (* ---------- RemoveNode, every single fault ---------- *)
 Theorem remove_node_ref : forall w n fl, RefP w -> held w = [] ->
-  let '(w', t') := run1 10 w (mkTh (remove_node n) 0 fl) in
+  let '(w', t') := run1 12 w (mkTh (remove_node n) 0 fl) in
   finished t' = true /\
-  (RefP w' \/ (* the plugin removal was hit by the failure after the store record was removed *) fl = Some 3%nat).
+  (RefP w' \/ (* the plugin removal was hit by the failure after the store record was removed *) fl = Some 4%nat).
 Proof.
   intros [ps ns rs ws hs] n fl R Hh. cbn in Hh. subst hs.
-  destruct fl as [[|[|[|[|j]]]]|]; crunch2; (split; [reflexivity|]);
+  destruct fl as [[|[|[|[|[|j]]]]]|]; crunch2; (split; [reflexivity|]);
     try (left; repeat apply refp_held; exact R);
     try (right; reflexivity);
     try (left; repeat apply refp_held;
          apply (refp_remove_node (set_held (mkRw ps ns rs ws []) [(plock s, 0)]) n);
          [apply refp_held; exact R | cbn; eapply (list_node_wls_nil (mkRw ps ns rs ws [])); eassumption]).
   (* the node exists but has no resource record: impossible in a Ref world *)
-  all: exfalso; apply node_pod_spec in E; pose proof (rp_res _ R _ _ E) as X; cbn in X;
-       apply mem_In in X; congruence.
+  all: exfalso;
+       match goal with H : node_pod _ _ = Some _ |- _ =>
+         apply node_pod_spec in H; pose proof (rp_res _ R _ _ H) as X; cbn in X; apply mem_In in X; congruence
+       end.
 Qed.
